@@ -30,9 +30,17 @@ func largeSizes(c *hl.Ctx) []int {
 	// 2^16+1 (the v+1 neighbour of the statement's 65536), 70000 (well above, aligned to nothing: 70000 = 2^4*5^4*7),
 	// 2^17+1 (the next power of two, where a doubling buffer grows once more)
 	if c.Thorough() {
-		return []int{65537, 65538, 65541, 70000, 131071, 131072, 131073, 1<<20 + 1}
+		return []int{65537, 65538, 65541, 70000, 131071, 131072, 131073}
 	}
 	return []int{65537, 70000, 131073}
+}
+
+// hugeSizes (thorough tier): 2^20+1, in sequences of length 1 and 2 only (next to every neighbour size).
+func hugeSizes(c *hl.Ctx) []int {
+	if c.Thorough() {
+		return []int{1<<20 + 1}
+	}
+	return nil
 }
 
 func largeNeighbours(c *hl.Ctx) []int {
@@ -113,7 +121,7 @@ func largeChunkings(c *hl.Ctx, sizes []int) []readerSpec {
 
 // largeNeeded decides whether a failure found by family large needs a body above largeThreshold: the same sequence
 // with those bodies shortened to largeThreshold bytes, written by the same writer, is read through the same reader
-// (two pieces: every cut; packets: the plain train and every train aligned to the end of the shortened bodies).
+// (two pieces: every cut; packets: see below).
 // If that passes, the key gets the suffix and the report says so; otherwise the plain key of family readers stands.
 func largeNeeded(c *hl.Ctx, cs *caseT, src string, sp readerSpec) (suffix, note string) {
 	small := *cs
@@ -158,23 +166,36 @@ func largeNeeded(c *hl.Ctx, cs *caseT, src string, sp readerSpec) (suffix, note 
 			specs = append(specs, s)
 		}
 	case "packets":
-		s := sp
-		s.Phase = 0
-		specs = append(specs, s)
-		// the trains aligned to the ends of the shortened bodies
-		p := 13
-		seen := map[int]bool{0: true}
+		// the plain train, the trains aligned to the ends of the shortened bodies, and the failing train shifted so
+		// that its boundaries keep their place in every part of the file (shortening moves everything behind a large
+		// body); every train when there are at most 16 of them
+		seen := map[int]bool{}
+		add := func(ph int) {
+			ph = ((ph % sp.N) + sp.N) % sp.N
+			if !seen[ph] {
+				seen[ph] = true
+				s := sp
+				s.Phase = ph
+				specs = append(specs, s)
+			}
+		}
+		add(0)
+		add(sp.Phase)
+		p, shift := 13, 0
 		for i, sz := range sizes {
 			if cs.Tags[i].Size > largeThreshold {
+				shift += cs.Tags[i].Size - sz
+				add(sp.Phase - shift)
 				for k := -1; k <= 5; k++ {
-					if ph := (p + 11 + sz + k) % sp.N; !seen[ph] {
-						seen[ph] = true
-						s.Phase = ph
-						specs = append(specs, s)
-					}
+					add(p + 11 + sz + k)
 				}
 			}
 			p += 15 + sz
+		}
+		if sp.N <= 16 {
+			for ph := 1; ph < sp.N; ph++ {
+				add(ph)
+			}
 		}
 	default:
 		specs = []readerSpec{sp}
@@ -190,7 +211,11 @@ func largeNeeded(c *hl.Ctx, cs *caseT, src string, sp readerSpec) (suffix, note 
 }
 
 func largeRule(c *hl.Ctx) string {
-	return fmt.Sprintf("Family large (segmentation behind bodies above 65536 bytes): every tag sequence of length 1..3 with exactly one body from %v and the other bodies from %v (the large tag first, in the middle and last), plus every pair of two large bodies; tag type, timestamp and flags rotating as in family readers; x chunking {everything asked for; at most n bytes per Read, n of family readers and 1460; packets of n bytes, n in %v, with the packet boundaries on the multiples of n and, for every large body ending at offset e and every k in -1..5, on the offsets congruent to e+k modulo n (a boundary one byte before the end of the body, at it, inside and just behind its PreviousTagSize); two pieces cut at every offset within split_window bytes of a field boundary} x end of stream x empty results as in family readers. Same oracle as family readers on the muxer's bytes (and the independent writer's when they differ); a failure that disappears when the large bodies are shortened to 65536 bytes gets the key suffix /body>65536. Non-trivial = distinct (sequence, reader) read back identically. ", largeSizes(c), largeNeighbours(c), largePacketNs(c))
+	huge := ""
+	if h := hugeSizes(c); len(h) > 0 {
+		huge = fmt.Sprintf(", plus a body from %v alone, in front of and behind one body from the second set", h)
+	}
+	return fmt.Sprintf("Family large (segmentation behind bodies above 65536 bytes): every tag sequence of length 1..3 with exactly one body from %v and the other bodies from %v (the large tag first, in the middle and last), plus every pair of two large bodies%s; tag type, timestamp and flags rotating as in family readers; x chunking {everything asked for; at most n bytes per Read, n of family readers and 1460; packets of n bytes, n in %v, with the packet boundaries on the multiples of n and, for every large body ending at offset e and every k in -1..5, on the offsets congruent to e+k modulo n (a boundary one byte before the end of the body, at it, inside and just behind its PreviousTagSize); two pieces cut at every offset within split_window bytes of a field boundary} x end of stream x empty results as in family readers. Same oracle as family readers on the muxer's bytes (and the independent writer's when they differ); a failure that disappears when the large bodies are shortened to 65536 bytes gets the key suffix /body>65536. Non-trivial = distinct (sequence, reader) read back identically. ", largeSizes(c), largeNeighbours(c), huge, largePacketNs(c))
 }
 
 type largeEnum struct {
@@ -242,6 +267,9 @@ func runLarge(c *hl.Ctx, e *enum, w int) bool {
 	le := &largeEnum{e: e, c: c}
 	big, nb := largeSizes(c), largeNeighbours(c)
 	c.Info("large_body_size", big)
+	if h := hugeSizes(c); len(h) > 0 {
+		c.Info("large_body_size_short_sequences", h)
+	}
 	c.Info("large_neighbour_body_size", nb)
 	c.Info("large_packet_sizes", largePacketNs(c))
 	isBig := map[int]bool{}
@@ -263,5 +291,18 @@ func runLarge(c *hl.Ctx, e *enum, w int) bool {
 			return false
 		}
 	}
-	return sizeSeqs(big, 2, nil, func(s []int) bool { return le.seq(s, w) })
+	if !sizeSeqs(big, 2, nil, func(s []int) bool { return le.seq(s, w) }) {
+		return false
+	}
+	for _, h := range hugeSizes(c) {
+		if !le.seq([]int{h}, w) {
+			return false
+		}
+		for _, n := range nb {
+			if !le.seq([]int{h, n}, w) || !le.seq([]int{n, h}, w) {
+				return false
+			}
+		}
+	}
+	return true
 }
